@@ -21,6 +21,7 @@ mod scen_c14;
 mod scen_c16;
 mod scen_c17;
 mod scen_dmg;
+mod scen_meta;
 mod scen_rd;
 mod scen_wr;
 mod scen_rt;
@@ -41,6 +42,9 @@ pub fn lookup(scen: &str) -> Option<Scenario> {
     Some(match scen {
         "rt" => scen_rt::run,
         "c13" => scen_c13::run,
+        "c10" => scen_meta::run_c10,
+        "c11" => scen_meta::run_c11,
+        "c11flips" => scen_meta::run_c11_flips,
         "dmg" => scen_dmg::run,
         "dmgcat" => scen_dmg::run_catalogue,
         "c16" => scen_c16::run,
